@@ -74,12 +74,16 @@ func checkDartLoopAgreement(w *World, r *Result) {
 			loops = append(loops, l)
 		}
 	}
-	if len(loops) != 2 {
-		Undecided("dart: expected two struct-field loops, found %d", len(loops))
+	if len(loops) < 2 {
+		Undecided("dart: expected at least two struct-field loops (class declaration, JSON routines), found %d", len(loops))
 	}
+	// every loop over the fields (there may be one per list) keeps the same fields
 	g0, _ := loopFilterSplit(loops[0].pkg.TypesInfo, loops[0].fn.Decl, loops[0].rs, loops[0].subst)
-	g1, _ := loopFilterSplit(loops[1].pkg.TypesInfo, loops[1].fn.Decl, loops[1].rs, loops[1].subst)
-	r.cond(setEq(g0, g1), "AGR-C06a", loops[1].fn.Name, "same field filter in the class and in the JSON routines", w.Pos(loops[1].rs.Pos()), "both loops keep a field exactly under {"+strings.Join(g0, ", ")+"}", "the class declaration keeps a field under {"+strings.Join(g0, ", ")+"} but the JSON routines under {"+strings.Join(g1, ", ")+"}: positional constructor arguments and fromJson arguments no longer align")
+	for _, l := range loops[1:] {
+		g1, _ := loopFilterSplit(l.pkg.TypesInfo, l.fn.Decl, l.rs, l.subst)
+		r.cond(setEq(g0, g1), "AGR-C06a", l.fn.Name, "same field filter in the class and in the JSON routines", w.Pos(l.rs.Pos()), "both loops keep a field exactly under {"+strings.Join(g0, ", ")+"}", "the class declaration keeps a field under {"+strings.Join(g0, ", ")+"} but the JSON routines under {"+strings.Join(g1, ", ")+"}: positional constructor arguments and fromJson arguments no longer align")
+	}
+	idByFn := map[*FuncInfo]bool{}
 	// appends: every append in the loops is reached for every kept field (either unconditional or in both arms of the opaque test)
 	for _, l := range loops {
 		info := l.pkg.TypesInfo
@@ -131,7 +135,18 @@ func checkDartLoopAgreement(w *World, r *Result) {
 			}
 			return true
 		})
-		r.cond(idOK, "AGR-C06a", l.fn.Name, "Dart field identifier = lowerFirst(JSONName)", w.Pos(l.rs.Pos()), "same derivation in the class and in the JSON routines", "the Dart field identifier is not lowerFirst(f.JSONName()) here: the routines refer to fields the class does not have")
+		if idOK {
+			idByFn[l.fn] = true
+		}
+	}
+	// per function (its field loops taken together: one may build only positional lists)
+	seenFn := map[*FuncInfo]bool{}
+	for _, l := range loops {
+		if seenFn[l.fn] {
+			continue
+		}
+		seenFn[l.fn] = true
+		r.cond(idByFn[l.fn], "AGR-C06a", l.fn.Name, "Dart field identifier = lowerFirst(JSONName)", w.Pos(l.rs.Pos()), "same derivation in the class and in the JSON routines", "the Dart field identifier is not lowerFirst(f.JSONName()) here: the routines refer to fields the class does not have")
 	}
 }
 
